@@ -465,6 +465,20 @@ def _param_uses(model: Model, fi: FuncInfo, pname: str, depth: int, seen) -> Lis
     return out
 
 
+def _only_called_from(model: Model, fi: FuncInfo, names: Set[str], depth: int) -> bool:
+    """a private helper whose every call site is in one of the named functions (or in such a helper of theirs): the
+    registry's writers wrote through it"""
+    from .lib import call_sites_of
+
+    if depth <= 0 or not fi.is_private:
+        return False
+    sites = call_sites_of(model, fi)
+    refs = [n for g in model.funcs.values() for n in ast.walk(g.node) if isinstance(n, ast.Name) and n.id == fi.name and isinstance(n.ctx, ast.Load)] if fi.cls is None else []
+    if not sites or (fi.cls is None and len(refs) > len(sites) * 1 and len({id(r) for r in refs}) != len(sites)):
+        return False
+    return all(c.name in names or _only_called_from(model, c, names, depth - 1) for c, _call, _sk in sites)
+
+
 def check_stateless(run, rule: str, scope: Sequence[FuncInfo], what: str) -> None:
     """no persistent-state site inside `scope` (functions), registries excepted."""
     m = run.model
@@ -480,7 +494,7 @@ def check_stateless(run, rule: str, scope: Sequence[FuncInfo], what: str) -> Non
             continue
         mod, _, nm = s.what.rpartition(".")
         allowed = REGISTRIES.get((mod, nm))
-        if allowed is not None and s.fi.name in allowed:
+        if allowed is not None and (s.fi.name in allowed or _only_called_from(m, s.fi, allowed, 2)):
             continue
         n_bad += 1
         run.fail(rule, s.fi, s.stmt, f"{s.kind} ({s.what}) in {s.fi.name}: state that persists between calls makes {what} depend on the history of earlier calls in the process (a second query, a second dataset, a repeated helper), not only on its inputs", "compute from the inputs of this call; keep per-call state on a per-call object")
